@@ -18,6 +18,17 @@ CHECKS = {
             "small-scope outside it.",
             "Trusts /verif/ref/e5.py (written from the E5 format, no secsgem import) and Python's struct for IEEE-754; values outside the "
             "boundary families are covered only by the small-scope hypothesis.", "DESIGN.md 3/C01"),
+    "C02": ("exploration", "enum", "bounded-exhaustive enumeration of reference-encoded (canonical and non-canonical) E5 items",
+            "Byte strings are produced by the independent reference encoder, including every assignment of 1/2/3 length bytes to every node "
+            "of every tree of the family, every finite float exponent x boundary mantissas, and every catalogue data item x every format "
+            "code it allows; the real decoder's value, consumed length and canonical re-encoding are compared with the reference on each.",
+            "Trusts ref/e5.py; byte strings the reference decoder rejects are out of scope; JIS-8 only through the JIS8 class.",
+            "DESIGN.md 3/C02"),
+    "C14": ("exploration", "enum", "bounded-exhaustive input enumeration of the Item API against the reference codec and the variables API",
+            "Every value of the C01 families is pushed through Item(value) in every constructor input form (value held, bytes equal to the "
+            "reference and to the variables API), Item.decode over every assignment of length bytes (canonical re-encode, class, value), and "
+            "Item.from_value over every integer at +-1 around every power of two up to 2^65 and structured python values (narrowest type).",
+            "Trusts ref/e5.py; floats excluded from the from_value type oracle (statement lists bool/int/str/bytes/list).", "DESIGN.md 3/C14"),
 }
 
 NOT_YET = "check not built yet in this revision of /verif (see DESIGN.md section 6 build order)"
